@@ -111,6 +111,8 @@ def classifyAr4ja (rate : String) (k nr nc : Nat) (rows : List (List Nat)) : Opt
 
 def handle (inp out : List String) : String :=
   match inp, out with
+  | ["ar4ja", _rate, _k], ["construction-panicked"] =>
+    verdict ["ok"] out (some "the-construction-of-the-matrix-panicked")
   | ["ar4ja", rate, k], [nr, nc, rs, cs] =>
     match rateIdx rate, k.toNat?, nr.toNat?, nc.toNat?, parseLL rs with
     | some ri, some k, some nr, some nc, some rowsI =>
